@@ -282,6 +282,18 @@ def check_case(shape, values, tier, deep=True):
         return 'encode-differs', viol
     if n != len(ref):
         bad('encoded-length', f'encoded_length() = {n}, actual size {len(ref)}')
+    # the documented buffer form: encode(wire, offset) into a caller-owned buffer that is not zero-filled
+    try:
+        buf = bytearray(b'\xa5' * (len(ref) + 7))
+        ret = make_instance(shape, values, cls).encode(buf, 3)
+        if bytes(buf[3:3 + len(ref)]) != ref:
+            bad('encode-into-buffer', f'encode(buffer, 3) wrote {bytes(buf[3:3 + len(ref)])[:24].hex()}.. but the declared shape gives {ref[:24].hex()}..')
+        elif bytes(buf[:3]) != b'\xa5' * 3 or bytes(buf[3 + len(ref):]) != b'\xa5' * 4:
+            bad('encode-into-buffer-outside', 'encode(buffer, 3) touched bytes outside its range')
+        elif ret is not buf:
+            bad('encode-into-buffer-return', 'encode(buffer, 3) did not return the buffer')
+    except Exception as e:  # noqa
+        bad(f'encode-into-buffer-raises:{type(e).__name__}', f'encode(buffer, 3) raised {e!r}')
     want = norm_values(shape, values)
     try:
         back = cls.parse(wire)
@@ -462,7 +474,12 @@ def values_for(shape, tier):
 
 
 # -- inheritance patterns -----------------------------------------------------------------------------------
-def inheritance_cases():
+WARM_FAILURES = []
+
+
+def inheritance_cases(warm=False):
+    """warm: every base class is used (encode, length, parse) before the derived classes are - state that the machinery
+    keeps per class must not be inherited by a subclass with another field list"""
     out = []
 
     class Base(tm.TlvModel):
@@ -504,6 +521,21 @@ def inheritance_cases():
     class NoInclude(Base):
         c = tm.UintField(0x83)                         # base fields are not included without IncludeBase
     out.append(('no-include', NoInclude, [{'n': 'c', 'k': 'uint', 't': 0x83}]))
+    if warm:
+        for cls in (Base, A, B, C):
+            m = cls()
+            for f in cls._encoded_fields:
+                setattr(m, f.name, 5 if isinstance(f, tm.UintField) else b'w')
+            try:
+                w = m.encode()
+                m.encoded_length()
+                back = cls.parse(w)
+                cls.parse(b'')
+                if back != m:
+                    WARM_FAILURES.append((f'C08|inherit:base-{cls.__name__}|roundtrip', f'{cls.__name__}: parse(encode(m)) != m'))
+            except Exception as e:  # noqa
+                WARM_FAILURES.append((f'C08|inherit:base-{cls.__name__}|raises:{type(e).__name__}', f'{cls.__name__} encode/parse: {e!r}'))
+        out = [(n + '+bases-used-first', c, sh) for n, c, sh in out]
     return out
 
 
@@ -659,6 +691,18 @@ def check_shipped(name, cls, shape, values):
     return viol
 
 
+def order_units():
+    """shipped models related by inheritance, exercised one after the other in one process, in both orders"""
+    sm = shipped_models()
+    out = []
+    for i, (n1, c1, _) in enumerate(sm):
+        for j, (n2, c2, _) in enumerate(sm):
+            if i != j and issubclass(c2, c1):
+                out.append({'kind': 'order', 'first': i, 'second': j, 'names': [n1, n2], 'tier': 'quick'})
+                out.append({'kind': 'order', 'first': j, 'second': i, 'names': [n2, n1], 'tier': 'quick'})
+    return out
+
+
 # -- plan / unit / replay -------------------------------------------------------------------------------------
 def plan(tier, seed):
     shapes = list(program_shapes(tier))
@@ -667,6 +711,8 @@ def plan(tier, seed):
     for lo in range(0, len(shapes), chunk):
         units.append({'kind': 'programs', 'lo': lo, 'hi': min(len(shapes), lo + chunk), 'tier': tier})
     units.append({'kind': 'inherit', 'tier': tier})
+    units.append({'kind': 'inherit', 'tier': tier, 'warm': True})
+    units += order_units()
     sm = shipped_models()
     for i, (name, cls, sh) in enumerate(sm):
         units.append({'kind': 'shipped', 'idx': i, 'name': name, 'tier': tier})
@@ -704,7 +750,7 @@ def unit(arg):
                                               'lo': arg['lo'], 'hi': arg['hi'], 'sig': sig})
             acc.sample({'shape': shape_str(sh), 'last_values': val_str(vals)})
     elif arg['kind'] == 'inherit':
-        for name, cls, sh in inheritance_cases():
+        for name, cls, sh in inheritance_cases(arg.get('warm', False)):
             annotate(sh)
             _CLS[repr(sh)] = cls
             for vals in values_for(sh, tier):
@@ -715,8 +761,28 @@ def unit(arg):
                 acc.outcome(f'inherit|{name}|{key}')
                 acc.observe([name, val_str(vals), sorted({v[0] for v in viol})])
                 for sig, what in viol:
-                    acc.violation(sig.replace('C08|', f'C08|inherit:{name}|'), what, {'kind': 'inherit', 'tier': tier})
+                    acc.violation(sig.replace('C08|', f'C08|inherit:{name}|'), what, {'kind': 'inherit', 'tier': tier, 'warm': arg.get('warm', False)})
+        for sig, what in WARM_FAILURES:
+            acc.violation(sig, what, {'kind': 'inherit', 'tier': tier, 'warm': True})
+        del WARM_FAILURES[:]
         acc.sample({'inheritance_patterns': [n for n, _, _ in inheritance_cases()]})
+        del WARM_FAILURES[:]
+    elif arg['kind'] == 'order':
+        sm = shipped_models()
+        for idx in (arg['first'], arg['second']):
+            name, cls, sh = sm[idx]
+            for vals in itertools.islice(shipped_cases(name, cls, sh, 'quick'), 0, 40):
+                viol = check_shipped(name, cls, sh, vals)
+                acc.evaluations += 1
+                acc.state_count += 1
+                acc.transitions += 2
+                acc.nontrivial += 1
+                acc.outcome(f"order|{'>'.join(arg['names'])}|{'ok' if not viol else 'viol'}")
+                acc.observe([name, val_str(vals), sorted({v[0] for v in viol})])
+                for sig, what in viol:
+                    acc.violation(sig + '|after:' + (arg['names'][0] if idx == arg['second'] else '-'), what,
+                                  {'kind': 'order', 'first': arg['first'], 'second': arg['second'], 'names': arg['names']})
+        acc.sample({'order': arg['names']})
     else:
         name, cls, sh = shipped_models()[arg['idx']]
         for vals in shipped_cases(name, cls, sh, tier):
@@ -738,8 +804,11 @@ def replay(case):
     if case['kind'] == 'programs':
         acc = unit({'kind': 'programs', 'lo': case['lo'], 'hi': case['hi'], 'tier': case['tier']})
         return [{'sig': s, 'what': v[0]['what']} for s, v in acc.violations.items() if s == case.get('sig', s)]
+    if case['kind'] == 'order':
+        acc = unit({'kind': 'order', 'first': case['first'], 'second': case['second'], 'names': case['names'], 'tier': 'quick'})
+        return [{'sig': s, 'what': v[0]['what']} for s, v in acc.violations.items()]
     if case['kind'] == 'inherit':
-        acc = unit({'kind': 'inherit', 'tier': case['tier']})
+        acc = unit({'kind': 'inherit', 'tier': case['tier'], 'warm': case.get('warm', False)})
     else:
         acc = unit({'kind': 'shipped', 'idx': case['idx'], 'name': case['name'], 'tier': case['tier']})
     return [{'sig': s, 'what': v[0]['what']} for s, v in acc.violations.items()]
